@@ -48,6 +48,7 @@ type c10H struct {
 	idxNo  map[restic.ID]int
 	hNo    map[restic.BlobHandle]int
 	nfile  int
+	beforeExecute func()
 }
 
 type c10Abs struct {
@@ -876,6 +877,12 @@ func (h *c10H) build(kind string) error {
 	}
 	if kind == "dup-missing" {
 		return h.buildDupMissing()
+	}
+	if kind == "pure-missing" {
+		return h.buildPureMissing()
+	}
+	if kind == "dup-race" {
+		return h.buildDupRace()
 	}
 	prev := ""
 	nb := 2 + h.rng.intn(3)
